@@ -7,7 +7,8 @@ class C37(Spec):
     harness = "h_c37"
     required_theorems = ("C37.cbc_roundtrip", "C37.cbc_legacy", "C37.cbc_other_lengths_do_not_roundtrip",
                          "C37.gcm_roundtrip", "C37.gcm_legacy", "C37.gcm_legacy_needs_authentication",
-                         "C37.setpasswd_preserves", "C37.setpasswd_failure_unchanged")
+                         "C37.setpasswd_preserves", "C37.setpasswd_failure_unchanged",
+                         "C37.history_keeps_every_secret", "C37.malformed_record_is_left_behind")
     level_text = ("Lean theorems about a model of the wallet's secret encryption, for EVERY block cipher with dec(enc b)=b on "
                   "16-byte blocks and every AEAD with open(seal p)=p (AES / AES-GCM are instances), every password (zero-padded "
                   "or cut to 32 bytes), every IV / nonce: CBCEncrypterPrivkey->CBCDecrypterPrivkey returns the key for the "
@@ -27,7 +28,14 @@ class C37(Spec):
                   "Lean model. Supported private-key lengths are read off the registered crypto drivers at run time (32: "
                   "secp256k1, secp256k1eth, secp256r1, sm2; 64: ed25519) and bipwallet rejects every other length on import. "
                   "Wallet passwords are generated in ASCII (isValidPassWord's unicode classes are not modelled). A record whose "
-                  "hex does not decode is skipped by the re-encryption loop; the wallet never writes such a record.")
+                  "hex does not decode is skipped by the re-encryption loop; the wallet never writes such a record. The "
+                  "history theorem (any list of successful and failed changes) is stated for stores whose Account records have "
+                  "a non-empty Addr: SetWalletAccountInBatch fails exactly for an empty Addr, the loop only logs that and the "
+                  "record stays under the old password (theorem malformed_record_is_left_behind; replayed on the real store "
+                  "with a record injected behind the wallet's back, op w.addbad). The wallet's own writers (GetAccountByte) "
+                  "refuse an empty Addr, so this is not reachable through requests and is not reported as a finding. "
+                  "gcm_legacy stays conditional on its disclosed authentication hypothesis; cbc_roundtrip/cbc_legacy are for "
+                  "the lengths 32/64, which the harness reads off the registered drivers (a run-time fact, not a Lean fact).")
     assumptions = ("AES is a keyed permutation of 16-byte blocks; AES-GCM opens what it sealed and adds 16 bytes",
                    "gcm_legacy: a legacy seed record mis-parsed as new format fails GCM authentication (probability 2^-128 otherwise)",
                    "goleveldb batch writes are atomic",
